@@ -1065,10 +1065,24 @@ def tier_config(tier):
             "sweep_scripts": 8, "opts": {}}
 
 
+_LIBRARY_DEPENDENT = ("cache_eviction", "cache_hit", "cache_miss", "host_func_executed",
+                      "apply_refused_on_limited_base", "apply_accepted_on_limited_base",
+                      "apply_fail_after_joins_recorded")
+
+
 def required_probes(tier, cfg):
-    need = [p for p in PROBES if p not in ("cache_eviction",)]
-    need += ["apply_fail_raised", "gc_pass", "cache_disabled_run", "tiny_cache_run"]
+    """Workload-only probes: stuck at zero means the machinery is broken (exit 2)."""
+    need = [p for p in PROBES if p not in _LIBRARY_DEPENDENT]
+    need += ["gc_pass", "cache_disabled_run", "tiny_cache_run"]
     return need
+
+
+def expected_probes(tier, cfg):
+    """Probes that also depend on how the library / SQLAlchemy react; zero is reported."""
+    return [p for p in _LIBRARY_DEPENDENT if p not in ("cache_eviction",
+                                                       "apply_refused_on_limited_base",
+                                                       "apply_accepted_on_limited_base")] + \
+        ["apply_fail_raised"]
 
 
 # --------------------------------------------------------------------------- process sweep
